@@ -30,6 +30,7 @@ RULE = (
 )
 ASSUMPTIONS = [
     "one realization, quadratic world, identity perturbation design: reference gradient = forward difference with the configured step (rtol 1e-6)",
+    "ensemble stratum (every 6th run: 2-3 realizations, one losing a perturbed evaluation at every gradient evaluation): function and constraint values are compared with the weighted mean over all realizations, gradients only between the speculative and the non-speculative run",
     "not asserted: that the ensemble layer avoids re-evaluating unperturbed rows when a gradient is requested first (the statement speaks of quantities)",
     "scipy.optimize itself is replaced by the FakeSciPy stub; the SciPy plug-in, its caches and NormalizedConstraints are real",
 ]
@@ -37,14 +38,26 @@ COMPONENTS = {
     "real": ["SciPyOptimizer (caches, _fun/_jac, NormalizedConstraints, option parsing)", "EnsembleOptimizer callback", "EnsembleEvaluator"],
     "stub": ["FakeSciPy (scipy.optimize.minimize / differential_evolution)", "simwrap recording wrapper", "SimEvaluator", "sim/inject sampler"],
 }
-PROBES = ["values_compared", "constraint_first_at_new_point", "jacobian_first_at_new_point", "gradient_first_at_new_point",
+PROBES = ["ensemble_with_failed_perturbations", "values_compared", "constraint_first_at_new_point", "jacobian_first_at_new_point", "gradient_first_at_new_point",
           "repeat_same_point", "population_request", "speculative", "split", "speculative_twin_compared", "gradient_free_method",
           "callback_invocations", "linear_rows_in_script", "shape_change"]
 
 
 def generate(seed: int, index: int, tier: str) -> dict:
     rng = random.Random(seed)
-    scn = gen_scipy.scipy_scenario(rng, PROP)
+    ensemble = index % 6 == 5
+    scn = gen_scipy.scipy_scenario(rng, PROP, method=(rng.choice(GRADIENT) if ensemble else None))
+    if ensemble:
+        # several realizations of which one loses perturbed evaluations (never the unperturbed one): it is failed for
+        # the gradient but its function values count - whatever evaluations happen to be combined
+        cfg = scn["configs"][0]
+        nr = rng.randint(2, 3)
+        scn["world"]["real_ids"] = list(range(nr))
+        cfg["realizations"] = {"weights": [round(rng.uniform(0.5, 2.0), 3) for _ in range(nr)], "realization_min_success": 1}
+        npert = cfg["gradient"]["number_of_perturbations"]
+        cfg["gradient"]["perturbation_min_success"] = npert
+        scn["faults"] = [{"kind": "nan", "eval": None, "real": rng.randrange(nr), "pert": rng.randrange(npert), "col": None}]
+        scn["ensemble"] = True
     alpha = gen_scipy.alphabet(scn)
     pool = scn["fake"]["points"]
     method = scn["method"]
@@ -99,8 +112,14 @@ class Ref:
         return x
 
     def raw(self, xf):
-        o, c = self.world.values(self.full(xf)[None, :], np.array([0]))
-        return float(self.ow @ o[0]), (None if c is None else c[0])
+        nr = len(self.world.real_ids)
+        if nr == 1:
+            o, c = self.world.values(self.full(xf)[None, :], np.array([0]))
+            return float(self.ow @ o[0]), (None if c is None else c[0])
+        # ensemble: weighted mean over all realizations (none of them fails in an unperturbed evaluation)
+        w = model.realization_weights(self.cfg)
+        o, c = self.world.values(np.repeat(self.full(xf)[None, :], nr, axis=0), np.arange(nr))
+        return float(self.ow @ (w @ o)), (None if c is None else w @ c)
 
     def grad_raw(self, xf):
         """forward differences with the configured step: (objective grad, constraint jac)"""
@@ -184,6 +203,8 @@ def _compare_log(ctx, cfg, viol, probes):
             tol = 1e-9
         elif q == "f":
             want, tol = ref.raw(x)[0], 1e-9
+        elif ctx.scn.get("ensemble") and (q == "g" or (q == "j" and not ref.is_linear(rec["k"]))):
+            continue  # gradients over a partly failed ensemble: compared through the speculative twin only
         elif q == "g":
             want, tol = ref.grad_raw(x)[0], 1e-6
         elif q == "c":
@@ -218,6 +239,8 @@ def execute(scn: dict) -> dict:
     method = scn["method"]
     opt = cfg["optimizer"]
     spec, split = bool(opt.get("speculative")), bool(opt.get("split_evaluations"))
+    if scn.get("ensemble") and ctx.evaluator.fired.get("nan_row"):
+        probe("ensemble_with_failed_perturbations")
     if spec:
         probe("speculative")
     if split:
